@@ -35,7 +35,7 @@ class C12(Prop):
         for k in range(N):
             f = rng.choice(["mean", "mean", "quantile", "median", "expectile"])
             n = rng.choice([1, 2, 3, 4, 6, 9, 15, 30]) if rng.random() < 0.9 else rng.randint(31, 150)
-            lv = rng.choice(ic.DYADIC_LEVELS[:9])
+            lv = rng.choice(ic.DYADIC_LEVELS[:9])  # also for mean / median, where it is documented to be neglected
             w = None if f in ("quantile", "median") else ic.gen_w(rng, n)
             rel = RELS[k % len(RELS)]
             if rel == "replicate":
@@ -50,12 +50,14 @@ class C12(Prop):
                 "f": f,
                 "level": lv,
                 "inc": rng.random() < 0.5,
-                "y": ic.gen_y(rng, n, rng.choice(["small", "digits", "dyadic", "neg"])),
+                "y": ic.gen_y(rng, n, rng.choice(["small", "digits", "dyadic", "neg", "tiny"])),
                 "w": w,
             }
             if rel == "affine":
                 c["a"] = str(rng.choice([Fraction(1, 4), Fraction(1, 2), 2, 3, 8]))
                 c["b"] = str(rng.choice([-16, -1, 0, Fraction(1, 2), 5, 1024]))
+                if ic.data_scale(c) < 1e-6:
+                    c["b"] = "0"  # a shift would swallow small-unit data in floating point: not the code's doing
             if rel == "wscale":
                 c["c"] = str(rng.choice([Fraction(1, 8), Fraction(1, 2), 2, 4, 1024, Fraction(1, 2**30), Fraction(1, 2**40), 2**30]))
             if rel == "containers":
@@ -117,7 +119,7 @@ class C12(Prop):
         return ic.iso_request(case)
 
     def compare(self, case, io, mo):
-        return ic.compare_xr(io, mo, exact=False, tol=1e-7 if case["f"] == "expectile" else 1e-9)
+        return ic.compare_xr(io, mo, exact=False, tol=1e-7 if case["f"] == "expectile" else 1e-9, scale=ic.data_scale(case))
 
     def oracle(self, case, io):
         if "err" in io:
@@ -135,7 +137,7 @@ class C12(Prop):
             if len(xa) != len(xb):
                 return f"{what}: lengths {len(xa)} vs {len(xb)}"
             for i, (u, v) in enumerate(zip(xa, xb)):
-                if not close(u, v, tol, tol):
+                if not close(u, v, tol, tol * ic.data_scale(case) * (abs(float(Fraction(case.get("a", 1)))) if rel == "affine" else 1.0) + (0 if rel != "affine" else tol * abs(float(Fraction(case.get("b", 0)))))):
                     return f"{what}: position {i}: {u!r} vs {v!r}"
             return None
 
